@@ -8,7 +8,7 @@
 
 use crate::common::*;
 use crate::model::{self, KsModel};
-use crate::{ensure, ensure_eq_bytes};
+use crate::{ensure, ensure_eq_bytes, pick};
 use vp_base::obj::*;
 use vp_base::tape::{self, Tape};
 use vp_base::toy;
@@ -49,23 +49,39 @@ fn xor(a: &[u8], b: &[u8]) -> Vec<u8> {
     a.iter().zip(b.iter()).map(|(x, y)| x ^ y).collect()
 }
 
-fn dec_all(f: &dyn BlockModeFactory, key: &[u8], iv: &[u8], ct: &[u8], unit: usize, oneshot: bool) -> Result<Vec<u8>, Violation> {
-    let obj = f.make(Ctor::New, key, iv).expect("harness: ctor");
-    if oneshot {
-        let mut o = vec![0u8; ct.len()];
-        let res = obj.oneshot(OneShot::Async(Form::B2b), ct, &mut o).ok_or_else(|| Violation { sig: format!("C15/no-async/{}", f.type_name()), msg: "type no longer implements AsyncStreamCipher".into() })?;
-        ensure!(res.is_ok(), format!("C15/async-rejected/{}", f.type_name()), "equal lengths rejected");
-        Ok(o)
-    } else {
-        let mut obj = obj;
-        let whole = ct.len() - ct.len() % unit;
-        Ok(run_simple(obj.as_mut(), &ct[..whole]))
+/// how the ciphertext is pushed through the decryptor
+#[derive(Clone, Debug)]
+enum DecPath {
+    Blocks,
+    OneShot,
+    /// buffered CFB decryptor fed in the given pieces
+    Buffered(Vec<usize>),
+}
+
+fn dec_all(suite: &Suite, f: &dyn BlockModeFactory, key: &[u8], iv: &[u8], ct: &[u8], unit: usize, path: &DecPath) -> Result<Vec<u8>, Violation> {
+    match path {
+        DecPath::OneShot => {
+            let obj = f.make(Ctor::New, key, iv).expect("harness: ctor");
+            let mut o = vec![0u8; ct.len()];
+            let res = obj.oneshot(OneShot::Async(Form::B2b), ct, &mut o).ok_or_else(|| Violation { sig: format!("C15/no-async/{}", f.type_name()), msg: "type no longer implements AsyncStreamCipher".into() })?;
+            ensure!(res.is_ok(), format!("C15/async-rejected/{}", f.type_name()), "equal lengths rejected");
+            Ok(o)
+        }
+        DecPath::Blocks => {
+            let mut obj = f.make(Ctor::New, key, iv).expect("harness: ctor");
+            let whole = ct.len() - ct.len() % unit;
+            Ok(run_simple(obj.as_mut(), &ct[..whole]))
+        }
+        DecPath::Buffered(cuts) => {
+            let mut b = suite.buf(Direction::Dec).unwrap().make(Ctor::New, key, iv).expect("harness: ctor");
+            Ok(run_buf(b.as_mut(), ct, cuts))
+        }
     }
 }
 
 fn dec_propagation(ctx: &Ctx, t: &mut Tape<'_>, r: &mut Report) -> CheckResult {
     let mode = t.pick(&[Mode::Cbc, Mode::Cfb, Mode::Cfb8, Mode::Pcbc, Mode::Ige]);
-    let suite = ctx.pick_suite(t, |s| s.info.has_dec || !mode.needs_dec(Direction::Dec));
+    let suite = pick!(ctx, t, r, |s| s.has_dec || !mode.needs_dec(Direction::Dec));
     let f = suite.block_mode(mode, Direction::Dec).unwrap();
     let bs = suite.info.bs;
     let key = gen_key(t, suite);
@@ -83,7 +99,7 @@ fn dec_propagation(ctx: &Ctx, t: &mut Tape<'_>, r: &mut Report) -> CheckResult {
         r.nontrivial = j > 0 && j + 1 < n;
         r.label("cfb8");
         r.d(|| format!("{ty} key={} iv={} n={n} bytes j={j} delta={delta:#x} ct={}", tape::hex_short(&key), tape::hex_short(&iv), tape::hex_short(&ct)));
-        let (p1, p2) = (dec_all(f, &key, &iv, &ct, 1, true)?, dec_all(f, &key, &iv, &ct2, 1, true)?);
+        let (p1, p2) = (dec_all(suite, f, &key, &iv, &ct, 1, &DecPath::OneShot)?, dec_all(suite, f, &key, &iv, &ct2, 1, &DecPath::OneShot)?);
         let d = xor(&p1, &p2);
         ensure!(d[..j].iter().all(|b| *b == 0), format!("C15/cfb8-earlier-bytes-changed/{ty}"), "altering ciphertext byte {j} changed an earlier plaintext byte");
         ensure!(d[j] == delta, format!("C15/cfb8-same-byte/{ty}"), "plaintext byte {j} changed by {:#x}, ciphertext byte by {delta:#x}", d[j]);
@@ -113,8 +129,21 @@ fn dec_propagation(ctx: &Ctx, t: &mut Tape<'_>, r: &mut Report) -> CheckResult {
         _ => "ige",
     });
     r.d(|| format!("{ty} key={} iv={} n={n}+{tail} j={j} delta={} ct={}", tape::hex_short(&key), tape::hex_short(&iv), tape::hex_short(&delta), tape::hex_short(&ct)));
-    let oneshot = mode == Mode::Cfb && tail > 0;
-    let (p1, p2) = (dec_all(f, &key, &iv, &ct, bs, oneshot)?, dec_all(f, &key, &iv, &ct2, bs, oneshot)?);
+    // CFB has three decrypting front-ends: block level, one-shot, buffered (fed in generated pieces)
+    let psel = t.byte();
+    let cuts = gen_cuts(t, ct.len(), bs, 5);
+    let path = if mode != Mode::Cfb {
+        DecPath::Blocks
+    } else if psel < 100 {
+        r.label("cfb-buffered");
+        DecPath::Buffered(cuts)
+    } else if tail > 0 || psel < 180 {
+        DecPath::OneShot
+    } else {
+        DecPath::Blocks
+    };
+    r.d(|| format!("path={path:?}"));
+    let (p1, p2) = (dec_all(suite, f, &key, &iv, &ct, bs, &path)?, dec_all(suite, f, &key, &iv, &ct2, bs, &path)?);
     let d = xor(&p1, &p2);
     let blk = |k: usize| -> &[u8] { &d[k * bs..((k + 1) * bs).min(d.len())] };
     let zero = |s: &[u8]| s.iter().all(|b| *b == 0);
@@ -148,7 +177,7 @@ fn dec_propagation(ctx: &Ctx, t: &mut Tape<'_>, r: &mut Report) -> CheckResult {
 }
 
 fn stream_transparency(ctx: &Ctx, t: &mut Tape<'_>, r: &mut Report) -> CheckResult {
-    let suite = ctx.pick_suite(t, |_| true);
+    let suite = pick!(ctx, t, r, |_| true);
     let f = &suite.streams[t.idx(suite.streams.len())];
     let bs = suite.info.bs;
     let key = gen_key(t, suite);
@@ -180,7 +209,7 @@ fn stream_transparency(ctx: &Ctx, t: &mut Tape<'_>, r: &mut Report) -> CheckResu
 }
 
 fn causality(ctx: &Ctx, t: &mut Tape<'_>, r: &mut Report) -> CheckResult {
-    let suite = ctx.pick_suite(t, |_| true);
+    let suite = pick!(ctx, t, r, |_| true);
     let modes = modes_for(suite);
     let (mode, dir) = modes[t.idx(modes.len())];
     let f = suite.block_mode(mode, dir).unwrap();
@@ -211,7 +240,7 @@ fn causality(ctx: &Ctx, t: &mut Tape<'_>, r: &mut Report) -> CheckResult {
 }
 
 fn keystream_independence(ctx: &Ctx, t: &mut Tape<'_>, r: &mut Report) -> CheckResult {
-    let suite = ctx.pick_suite(t, |_| true);
+    let suite = pick!(ctx, t, r, |_| true);
     let f = &suite.streams[t.idx(suite.streams.len())];
     let bs = suite.info.bs;
     let key = gen_key(t, suite);
